@@ -10,6 +10,9 @@
 #include "vf_common.h"
 
 namespace vf {
+// the address of a returned block for alignment oracles: mimalloc.h declares the aligned entry points with __attribute__((alloc_align)), so the compiler may fold
+// `(uintptr_t)p % a == 0` on their results to true; the empty asm makes the value opaque (pointed out by a seeding sub-agent of round 7 whose first demonstration passed for that reason)
+static inline uintptr_t addr(const void* p) { __asm__ volatile("" : "+r"(p)); return (uintptr_t)p; }
 
 static const size_t BIG  = 512 * 1024;   // blocks with more patterned bytes are patterned sparsely
 static const size_t EDGE = 64 * 1024;
